@@ -19,6 +19,8 @@ STUB_SOURCES = {
     "xdsl.dialects.linalg": "xdsl_dialects_linalg.py",
     "xdsl.builder": "xdsl_builder.py",
     "minimalloc": "minimalloc.py",
+    "xdsl.dialects.tosa": "xdsl_dialects_tosa.py",
+    "xdsl.dialects.tensor": "xdsl_dialects_tensor.py",
     "xdsl.utils.hints": "xdsl_utils_hints.py",
     "xdsl.pattern_rewriter": "xdsl_pattern_rewriter.py",
     "xdsl.rewriter": "xdsl_pattern_rewriter.py",
